@@ -11,3 +11,5 @@ import FP.Props.C16
 #print axioms FP.Props.C16.expr_call_accepted_iff
 #print axioms FP.Props.C16.expr_call_bad_argument
 #print axioms FP.Props.C16.expr_unimplemented_fails
+#print axioms FP.Props.C16.join_needs_the_experimental_table
+#print axioms FP.Props.C16.join_in_the_experimental_table
